@@ -217,7 +217,7 @@ RT = {'kind': 'kani', 'crate': 'runtime', 'repo_crates': ['truc_runtime'], 'flag
                       'does not unwind): the panic arm of try_convert_vec_in_place is unreachable in these harnesses']}
 RT_BOUND = 'BOUNDED: vector length <= 4 (<= 3 for boxed, large and over-aligned elements); element families: u32->i32, drop-counted 1-byte tokens, Box-owning values, (), [u64;4]->[i64;4], repr(align(16)) pair'
 def rt_n(tier):
-    return {'VERIF_CONVERT_N': '6' if tier == 'thorough' else '4'}
+    return {'VERIF_CONVERT_N': '8' if tier == 'thorough' else '4'}
 
 
 K_C08 = dict(RT, name='kani-convert-c08', harnesses=['c08_'], bounded=RT_BOUND, min_harnesses=7,
